@@ -3,17 +3,9 @@
    In the value model a patch is an immutable list of operations, so "applying never changes
    the patch" and "results are independent" hold by construction; those clauses are checked on
    the implementation by the harness (object identity, snapshots) and are not theorems here. *)
-From JP Require Import Base Json PyStr Pointer Patch Rfc6901 Rfc6902 Edit PointerDomain PatchProofs.
+From JP Require Import Base Json PyStr Pointer Patch Rfc6901 Rfc6902 Edit PointerDomain PatchCorr PatchProofs.
 
-Definition normal_part (x : ppart) : Prop := index_of_text (part_text x) = Ok x.
-Definition std_pointer (p : pointer) : Prop :=
-  Forall normal_part p /\ outside_extensions (tokens p) = true.
-Definition refines (r : result json) (o : outcome) : Prop :=
-  match o with
-  | OOk d => r = Ok d
-  | OError => exists k, r = Err (EPatch k)
-  | OTestFailed => r = Err (EPatch KPatchTest)
-  end.
+(* normal_part, std_pointer, refines: see spec/PatchCorr.v *)
 
 (* every loaded operation prints with the operation name it was given *)
 Theorem C15_names :
@@ -60,4 +52,8 @@ Example C15_example :
   let ods := [mkOpDoc NAddAp [47%N; 97%N; 47%N; 57%N] [] JNull; mkOpDoc NAddNe [47%N; 97%N] [] JNull] in
   exists pops, build true ods = Ok pops /\ map od_op (asdicts pops) = [NAddAp; NAddNe] /\
                Patch.apply pops (JObj [([97%N], JArr [])]) = Ok (JObj [([97%N], JArr [JNull])]).
-Proof. vm_compute. eexists. repeat split; reflexivity. Qed.
+Proof.
+  (* [vm_compute] on the whole goal would strongly normalise under the [exists] binder
+     (the bodies of the stuck fixpoints) and does not terminate in practical time *)
+  eexists. split; [vm_compute; reflexivity|]. split; vm_compute; reflexivity.
+Qed.
